@@ -28,6 +28,8 @@ DECIDING = ["lines_checked", "benign_tokens_checked", "locality_lines_compared"]
 def cases(ctx):
     rng = ctx.rng
     subs = M.subsets()
+    for i in range(ctx.per_shard(ctx.pick(12, 600))):
+        yield {"kind": "dirfault", "seed": rng.getrandbits(32), "bad": rng.choice(["a.cfg", "a.cfg", "m/b.cfg"])}
     for i in range(ctx.per_shard(ctx.pick(2400, 80000))):
         yield {"kind": "text", "seed": rng.getrandbits(32), "feats": subs[i % 16] if rng.random() < 0.7 else rng.choice(subs),
                "nlines": rng.randint(1, 30), "final_newline": rng.random() < 0.8,
@@ -102,7 +104,52 @@ def run_variant(nc, opts, feats, text_str, via, workdir=None):
         return f.read().decode("utf-8")
 
 
+def _dirfault(ctx, case, nc, wd):
+    """A directory run in which one file's output cannot be written: every OTHER output must still consist
+    of exactly its own input's lines (IP-only features, so each file can be compared with a stream run)."""
+    rng = random.Random(case["seed"])
+    opts = M.options(rng)
+    feats = ["ip"] + (["asn"] if rng.random() < 0.5 else [])
+    names = ["a.cfg", "m/b.cfg", "m/c.cfg", "z.cfg"]
+    texts = {n: M.render_text(M.gen_text(rng, opts, rng.randint(2, 9), secrets=False)) for n in names}
+    src, dst = os.path.join(wd, "in"), os.path.join(wd, "out")
+    os.makedirs(os.path.join(src, "m"))
+    os.makedirs(os.path.join(dst, "m"))
+    for n, t in texts.items():
+        with open(os.path.join(src, n), "w", encoding="utf-8", newline="") as f:
+            f.write(t)
+    bad = case.get("bad", "a.cfg")
+    os.symlink(os.path.join(wd, "nowhere", "x"), os.path.join(dst, bad))
+    nc.af.anonymize_files(src, dst, False, True, salt=opts["salt"], as_numbers=list(opts["asns"]) if "asn" in feats else None,
+                          preserve_prefixes=None if opts.get("pp") is None else list(opts["pp"]),
+                          preserve_networks=None if opts.get("pa") is None else list(opts["pa"]),
+                          preserve_suffix_v4=opts.get("B4"), preserve_suffix_v6=opts.get("B6"))
+    ctx.ev()
+    ctx.count("directory_runs_with_unwritable_output")
+    for n, t in texts.items():
+        if n == bad:
+            continue
+        exp = run_variant(nc, opts, feats, t, "io")
+        try:
+            with open(os.path.join(dst, n), encoding="utf-8", newline="") as f:
+                got = f.read()
+        except OSError:
+            ctx.violation(case, "line-count-changed:file-level", "no output for %s after another file of the run failed" % n)
+            return
+        ctx.count("lines_checked", t.count("\n"))
+        if got != exp:
+            key = "line-count-changed:directory-run-with-failure" if got.count("\n") != exp.count("\n") else "line-depends-on-other-lines"
+            ctx.violation(case, key, "directory run with an unwritable output for %s: %s has %d lines, its input %d; first lines %r vs expected %r"
+                          % (bad, n, got.count("\n"), t.count("\n"), got[:80], exp[:80]))
+            return
+    ctx.distinct(("dirfault", case["seed"]))
+
+
 def check_case(ctx, case):
+    if case["kind"] == "dirfault":
+        nc = load.nc()
+        with tempfile.TemporaryDirectory(dir=os.path.join(load.VERIF, ".work")) as wd:
+            return _dirfault(ctx, case, nc, wd)
     if case["kind"] != "text":
         raise HarnessError("unknown kind")
     nc = load.nc()
